@@ -18,7 +18,10 @@ use text_utils::data::loading::{BufferedIterator, PipelineIterator};
 use text_utils::verif::{self, Event, Monitor, Point};
 
 // generous: only a wedged implementation ever waits this long; a loaded machine must not false-alarm
-const STEP_TIMEOUT: Duration = Duration::from_millis(10_000);
+/// limit for one granted move to reach its next schedule point (times `patience()`)
+fn step_timeout() -> Duration {
+    Duration::from_millis(10_000 * crate::patience())
+}
 
 #[derive(Default)]
 struct CtlState {
@@ -108,7 +111,7 @@ impl Ctl {
 
     /// wait until every thread in `threads` blocks at a point or has exited
     pub fn wait_all(&self, threads: &[usize]) -> bool {
-        let deadline = Instant::now() + STEP_TIMEOUT;
+        let deadline = Instant::now() + step_timeout();
         let mut st = self.st.lock().unwrap();
         loop {
             if threads.iter().all(|t| st.waiting.contains_key(t) || st.exited.contains(t)) {
@@ -140,7 +143,7 @@ impl Ctl {
 
     /// wait until thread `t` blocks again or exits
     pub fn settle(&self, t: usize) -> After {
-        let deadline = Instant::now() + STEP_TIMEOUT;
+        let deadline = Instant::now() + step_timeout();
         let mut st = self.st.lock().unwrap();
         loop {
             if let Some(ev) = st.waiting.get(&t) {
@@ -175,7 +178,7 @@ impl Ctl {
     }
 
     pub fn wait_exited(&self, threads: &[usize], ms: u64) -> usize {
-        let deadline = Instant::now() + Duration::from_millis(ms);
+        let deadline = Instant::now() + Duration::from_millis(ms * crate::patience());
         let mut st = self.st.lock().unwrap();
         loop {
             let n = threads.iter().filter(|t| st.exited.contains(t)).count();
@@ -361,7 +364,7 @@ pub fn run_pipe_controlled_ext(
                     let _ = tx.send(r.is_none());
                     p
                 });
-                match rx.recv_timeout(STEP_TIMEOUT) {
+                match rx.recv_timeout(step_timeout()) {
                     Ok(none) => {
                         run.ended = none;
                         if none {
@@ -476,7 +479,7 @@ pub fn run_pipe_free(xs: &[i64], w: usize, delays: &[u64]) -> PipeRun {
         let _ = tx.send(out);
     });
     let total_us: u64 = (0..n).map(|i| if delays_t.is_empty() { 0 } else { delays_t[i % delays_t.len()] }).sum();
-    let res = rx.recv_timeout(Duration::from_millis(10_000 + total_us / 1000 * 2));
+    let res = rx.recv_timeout(Duration::from_millis((10_000 + total_us / 1000 * 2) * crate::patience()));
     let _ = std::panic::take_hook();
     std::panic::set_hook(Box::new(|_| {}));
     let mut run = PipeRun {
@@ -647,7 +650,7 @@ pub fn run_buffered_controlled(n: usize, cap: usize, choices: &[usize], dropk: O
                     let _ = tx.send(r.is_none());
                     b
                 });
-                match rx.recv_timeout(STEP_TIMEOUT) {
+                match rx.recv_timeout(step_timeout()) {
                     Ok(none) => {
                         run.ended = none;
                         if none {
